@@ -17,12 +17,18 @@ Record ecase := mkecase {
   e_feat : feat;
   e_code : N;          (* res.StatusCode chosen by the implementation *)
   e_raw : str;         (* res.Write output *)
-  e_go_verdict : N; e_go_status : N; e_go_bodylen : N   (* what the Go-side parser made of e_raw *)
+  e_go_verdict : N; e_go_status : N; e_go_bodylen : N;   (* what the Go-side parser made of e_raw *)
+  e_reason : str; e_name : str; e_msg : str; e_errtext : str   (* reason phrase, proxy name, the handler's message, err.Error() *)
 }.
 
 (* the model classifies like the implementation, and the Gallina parser reads the bytes like the Go parser *)
+(* the bytes the model of the error response predicts (HTTP/1.1 request, connection kept) *)
+Definition ecase_model_wire (c : ecase) : str :=
+  let k := e_code c in
+  error_wire 1 (k / 100) ((k / 10) mod 10) (k mod 10) (e_reason c) (e_name c) (e_msg c) (e_errtext c) false.
+
 Definition ecase_model_ok_r (c : ecase) (r : presult) : bool :=
-  (classify (e_feat c) =? e_code c) &&
+  (classify (e_feat c) =? e_code c) && str_eqb (ecase_model_wire c) (e_raw c) &&
   (verdict_n (pv r) =? e_go_verdict c) && (pstatus r =? e_go_status c) && (N.of_nat (length (pbody r)) =? e_go_bodylen c).
 
 (* the implementation's own output: status in 400..599, a complete well-formed response
